@@ -270,3 +270,67 @@ def is_primitive_effect(n):
         if n["name"] in MUTATORS and n["recv"]["k"] == "field" and not any(p.startswith(("consensus::", "mempool::", "network::", "store::", "crypto::")) for p in paths):
             return True
     return False
+
+
+def inner_cond(flow, node, scope, drop_ok_facts=False):
+    """Conjunction of the path-condition conjuncts of `node` that arise inside `scope` (an ancestor node): the part
+    of its guard that is not already the guard of `scope` itself."""
+    from .analysis import And, atoms_of
+    outer = flow.pathcond(scope)
+    oc = outer[1] if outer[0] == "and" else [outer]
+    pc = flow.pathcond(node)
+    ic = [c for c in (pc[1] if pc[0] == "and" else [pc]) if c not in oc]
+    if drop_ok_facts:
+        ic = [c for c in ic if not all(a.startswith(("ok(", "some(")) for a in atoms_of(c)) or not atoms_of(c)]
+    return And(*ic)
+
+
+class AuxReport:
+    """Minimal Report stand-in used to re-evaluate another property's rules and fold selected results."""
+
+    def __init__(self):
+        self.rules = []
+
+    def ok(self, rule, key_, loc="", detail=""):
+        self.rules.append({"rule": rule, "key": "%s|%s" % (rule, key_), "ok": True, "loc": loc, "detail": detail})
+
+    def fail(self, rule, key_, loc, msg, **extra):
+        self.rules.append({"rule": rule, "key": "%s|%s" % (rule, key_), "ok": False, "loc": loc, "detail": msg})
+
+    def judge(self, cond, rule, key_, loc="", ok_detail="", fail_msg="", **extra):
+        (self.ok if cond else self.fail)(rule, key_, loc, ok_detail if cond else (fail_msg or ok_detail))
+        return cond
+
+    def floor(self, rule, count, minimum, what):
+        if count < minimum:
+            self.fail(rule, "floor|" + what, "", "instance count %d below floor %d for %s" % (count, minimum, what))
+            return False
+        return True
+
+    def sample(self, obj):
+        pass
+
+    def note(self, t):
+        pass
+
+    def stat(self, k, v):
+        pass
+
+
+def fold(R, P, modname, rule_ids, new_rule, floor):
+    """Re-evaluate module `modname` on the programs P and report the results of `rule_ids` under `new_rule`."""
+    n = 0
+    for cfg, prog in P.items():
+        aux = AuxReport()
+        try:
+            mod = __import__("hsrules.props." + modname, fromlist=["rules"])
+            mod.rules({cfg: prog}, aux)
+        except Exception as e:
+            R.fail(new_rule, "%s rules evaluate (%s)" % (modname.upper(), cfg), "", "rules of %s crashed: %r" % (modname.upper(), e))
+            continue
+        for r in aux.rules:
+            if r["rule"] in rule_ids:
+                n += 1
+                k = "%s:%s" % (r["rule"], r["key"].split("|", 1)[1])
+                (R.ok if r["ok"] else R.fail)(new_rule, k, r["loc"], r["detail"])
+    R.floor(new_rule, n, floor, "obligations folded from %s %s" % (modname.upper(), sorted(rule_ids)))
